@@ -696,6 +696,14 @@ func (g *gen) modelSeq(spec target, nOps int) {
 	mr := &modelRun{g: g, spec: spec, seen: map[string]bool{}}
 	func() {
 		defer func() { recover() }()
+		if ot, ok := optTargets[spec.name]; ok && g.r.Chance(40) {
+			var note string
+			if mr.roots, note = g.rootsWithOptions(spec, ot); note != "" {
+				mr.log = append(mr.log, note)
+				g.hist["model constructed with writable fields per resource"]++
+			}
+			return
+		}
 		mr.roots = spec.mk()
 	}()
 	if len(mr.roots) == 0 {
